@@ -203,7 +203,6 @@ func TestEncodeResponseRejects(t *testing.T) {
 		"error nil":              {Version: 4, Op: OpError},
 		"bad reason address":     {Version: 5, Op: OpError, Error: &ErrorBody{Code: ErrReadFailure, ReasonMap: []FailureReason{{IP: []byte{1}}}}},
 		"rows nil":               {Version: 4, Op: OpResult, Kind: KindRows},
-		"global without columns": {Version: 4, Op: OpResult, Kind: KindRows, Rows: &RowsMeta{GlobalSpec: true}},
 		"bad column type":        {Version: 4, Op: OpResult, Kind: KindRows, Rows: &RowsMeta{Columns: []ColSpec{{Name: "a", Type: ColType{ID: TMap}}}}},
 		"prepared nil":           {Version: 4, Op: OpResult, Kind: KindPrepared},
 		"pk indices in v3":       {Version: 3, Op: OpResult, Kind: KindPrepared, Prepared: &PreparedMeta{Columns: cols, PKIndices: []uint16{0}}},
